@@ -583,8 +583,8 @@ fn e2e_cases(seed: u64, tier: Tier) -> Vec<E2eCase> {
             for r in 0..n {
                 let x = derive_seed(seed, "C11", "e2e", (i * 100 + r) as u64 + mode as u64 * 1000);
                 let listed: Vec<u8> = (0..6u8).filter(|t| (x >> t) & 1 == 1).collect();
-                // first round good, second bad (missing file or bad line); then mixed
-                let kind = if r == 0 { 0 } else if r == 1 { 1 + ((x >> 8) % 2) as u8 } else { ((x >> 8) % 4) as u8 % 3 };
+                // first round good, second a bad line, third a missing file; then mixed
+                let kind = if r <= 2 { r as u8 } else { ((x >> 8) % 4) as u8 % 3 };
                 rounds.push((listed, kind));
             }
             rounds.push((vec![0, 1], 0));
